@@ -54,6 +54,36 @@ fn build(k: &J) -> Value {
     }
 }
 
+fn digits_j(x: u128) -> Vec<J> {
+    x.to_string().bytes().map(|b| J::from(b - b'0')).collect()
+}
+
+/// Records which visitor method Number::visit calls, and with what.
+struct Rec;
+impl lexpr::number::Visitor for Rec {
+    type Value = (J, Option<u64>);
+    type Error = String;
+    fn error<T: Into<String>>(msg: T) -> String {
+        msg.into()
+    }
+    fn visit_u64(self, n: u64) -> Result<Self::Value, String> {
+        Ok((json!({"m":"u64","neg":false,"d":digits_j(n as u128)}), None))
+    }
+    fn visit_i64(self, n: i64) -> Result<Self::Value, String> {
+        Ok((json!({"m":"i64","neg": n < 0,"d":digits_j(n.unsigned_abs() as u128)}), None))
+    }
+    fn visit_f64(self, n: f64) -> Result<Self::Value, String> {
+        Ok((json!({"m":"f64"}), Some(n.to_bits())))
+    }
+}
+
+fn visit_of(v: &Value) -> (J, Option<u64>) {
+    match v.as_number() {
+        Some(n) => n.visit(Rec).unwrap_or_else(|e| (json!({"m":"error","why":e}), None)),
+        None => (json!({"m":"none"}), None),
+    }
+}
+
 fn opt_int(v: Option<i128>) -> J {
     match v {
         Some(x) => json!({"t":"some","neg": x < 0,"d": x.unsigned_abs().to_string().bytes().map(|b| J::from(b - b'0')).collect::<Vec<_>>()}),
@@ -149,11 +179,20 @@ pub fn run(cfg: &J) -> J {
         *evals += 1;
         let asi = opt_int(v.as_i64().map(|x| x as i128));
         let asu = opt_int(v.as_u64().map(|x| x as i128));
+        let (visit, fbits) = visit_of(&v);
+        if fbits != v.as_number().filter(|n| n.is_f64()).and_then(|n| n.as_f64()).map(|f| f.to_bits()) {
+            bad.push(mk("Number::visit hands visit_f64 another float than as_f64 returns".into()));
+        }
+        if let (Some(n), "int") = (v.as_number(), k["c"].as_str().unwrap()) {
+            if n.to_string() != digits_i128(k).to_string() || v.to_string() != n.to_string() {
+                bad.push(mk(format!("Display of the number is {} (value printed as {}), the payload is {}", n, v, digits_i128(k))));
+            }
+        }
         trace.push(json!({"ev":"num","k":k,"kind":kinds.first().unwrap_or(&"?"),"isi64":v.is_i64(),"isu64":v.is_u64(),"isf64":v.is_f64(),
-                          "asi64":asi,"asu64":asu}));
+                          "asi64":asi,"asu64":asu,"visit":visit}));
         if let Some(c) = c {
             for (key, got) in [("kind", json!(kinds.first().unwrap_or(&"?"))), ("isi64", json!(v.is_i64())), ("isu64", json!(v.is_u64())),
-                               ("isf64", json!(v.is_f64())), ("asi64", asi.clone()), ("asu64", asu.clone())] {
+                               ("isf64", json!(v.is_f64())), ("asi64", asi.clone()), ("asu64", asu.clone()), ("visit", visit.clone())] {
                 if c[key] != got {
                     bad.push(mk(format!("{}: got {} expected {}", key, got, c[key])));
                 }
